@@ -9,7 +9,8 @@
 EXTENDS CompilePipeline
 
 Base == [fam |-> "", shape |-> "", mods |-> Mods, imp |-> {}, subs |-> {}, inc |-> {}, defs |-> {},
-         roots |-> {}, augs |-> {}, devs |-> {}, off |-> {}]
+         roots |-> {}, augs |-> {}, devs |-> {}, off |-> {}, alias |-> {}, spell |-> "u"]
+Spellings == {"u", "o", "mix"}
 
 \* ---- definition graphs: name -> set of referenced names ("z" is never defined)
 ShapeFn(sh) ==
@@ -34,13 +35,13 @@ NestsOf(k, sh) == LET D == DOMAIN ShapeFn(sh) IN
                   ELSE {[n \in D |-> FALSE], [n \in D |-> TRUE]}
                        \cup (IF sh \in {"fan", "dag"} THEN {[n \in D |-> n = x] : x \in D} ELSE {})
 
-DefInst(k, sh, home, nest, zm, rh, used, off) ==
+DefInst(k, sh, home, nest, zm, rh, used, off, sp) ==
   LET F == ShapeFn(sh)
       refsOf(n) == {IF y = "z" THEN Ref(zm, "z") ELSE Ref(home[y], y) : y \in F[n]}
       defs == {[k |-> k, n |-> n, home |-> home[n], refs |-> refsOf(n), nest |-> nest[n]] : n \in DOMAIN F}
       need == UNION {{<<d.home, r.m>> : r \in {x \in d.refs : x.m # d.home}} : d \in defs}
               \cup (IF used /\ rh # "m1" THEN {<<rh, "m1">>} ELSE {})
-  IN [Base EXCEPT !.fam = k, !.shape = sh, !.defs = defs, !.imp = need, !.off = off,
+  IN [Base EXCEPT !.fam = k, !.shape = sh, !.defs = defs, !.imp = need, !.off = off, !.spell = sp,
                   !.roots = IF used THEN {[home |-> rh, k |-> k, m |-> "m1", n |-> "a"]} ELSE {}]
 
 \* variants of one instance: an import statement missing; a module not supplied
@@ -53,8 +54,8 @@ DropModule(I) == {[I EXCEPT !.mods = I.mods \ {x}, !.shape = I.shape \o "-nomodu
 Variants(I) == {I} \cup DropImport(I) \cup DropModule(I)
 
 DefFamily(k, sh, Places) ==
-  UNION {Variants(DefInst(k, sh, home, nest, zm, rh, used, off))
-         : home \in HomesOf(sh, Places), nest \in NestsOf(k, sh),
+  UNION {Variants(DefInst(k, sh, home, nest, zm, rh, used, off, sp))
+         : sp \in Spellings, home \in HomesOf(sh, Places), nest \in NestsOf(k, sh),
            zm \in (IF "z" \in UNION {ShapeFn(sh)[n] : n \in DOMAIN ShapeFn(sh)} THEN Places ELSE {"m1"}),
            rh \in {"m1", "m2"},
            used \in (IF Cyclic(sh) THEN {TRUE, FALSE} ELSE {TRUE}),
@@ -68,8 +69,8 @@ DefFamily(k, sh, Places) ==
 \* scope, and optionally a third module uses one of the top-level copies through its prefix.
 LocalDefs(k, sh, h, nest) ==
   LET F == ShapeFn(sh) IN {[k |-> k, n |-> n, home |-> h, refs |-> {Ref(ModH(h), y) : y \in F[n]}, nest |-> nest] : n \in DOMAIN F}
-TwinInst(k, sh1, sh2, hh, nest, x) ==
-  [Base EXCEPT !.fam = k, !.shape = "twin-" \o sh1 \o "-" \o sh2,
+TwinInst(k, sh1, sh2, hh, nest, x, sp) ==
+  [Base EXCEPT !.fam = k, !.shape = "twin-" \o sh1 \o "-" \o sh2, !.spell = sp,
                !.defs = LocalDefs(k, sh1, hh[1], nest) \cup LocalDefs(k, sh2, hh[2], nest),
                !.roots = {[home |-> h, k |-> k, m |-> ModH(h), n |-> "a"] : h \in {hh[1], hh[2]}}
                          \cup (IF x = "" THEN {} ELSE {[home |-> "m3", k |-> k, m |-> x, n |-> "a"]}),
@@ -80,14 +81,32 @@ TwinScopes(k) == {<<"m1", "m2">>, <<"m2", "m1">>}
                              <<"m2.x3", "m1.x1">>, <<"m1", "m1.x1">>, <<"m1.x1", "m1">>}
                        ELSE {})
 TwinFamily(k) ==
-  UNION {{TwinInst(k, sh1, sh2, hh, nest, x) : x \in {""} \cup {h \in {hh[1], hh[2]} : ~Scoped(h)}}
-         : sh1 \in {"single", "chain"}, sh2 \in {"single", "chain", "self", "cyc2", "cyc3", "lasso", "dang1", "dang"},
+  UNION {{TwinInst(k, sh1, sh2, hh, nest, x, sp) : x \in {""} \cup {h \in {hh[1], hh[2]} : ~Scoped(h)}}
+         : sp \in Spellings, sh1 \in {"single", "chain"}, sh2 \in {"single", "chain", "self", "cyc2", "cyc3", "lasso", "dang1", "dang"},
            hh \in TwinScopes(k), nest \in (IF k = "grouping" THEN BOOLEAN ELSE {FALSE})}
 
 \* ---- import graphs: every set of import statements between the supplied modules
 ImportFamily(present) ==
   {[Base EXCEPT !.fam = "import", !.shape = IF HasCycle(E) THEN "cyclic" ELSE "acyclic", !.mods = present, !.imp = E]
    : E \in SUBSET (present \X Mods)}
+
+\* ---- import graphs through a submodule: m1 includes s1; every set of import statements between the modules
+\* x every non-empty set of imports written in s1 (dependencies of m1 that exist only through its submodule, cycles
+\* m1 -(s1)-> N -> ... -> m1).  "collide": s1 names m2 by the prefix string under which m1 imports m3 and vice
+\* versa (same prefix string, different module, in a module and its submodule).  Without collision s1 may also
+\* augment a grouping-produced container of m2, which must then be expanded before m1.
+SubImportFamily ==
+  LET ME == {<<"m1", "m2">>, <<"m1", "m3">>, <<"m2", "m1">>, <<"m2", "m3">>, <<"m3", "m1">>, <<"m3", "m2">>}
+      SE == {<<"s1", "m2">>, <<"s1", "m3">>}
+      One(E, S, col, aug) ==
+        [Base EXCEPT !.fam = "subimport", !.shape = (IF HasCycle(E \cup {<<"m1", e[2]>> : e \in S}) THEN "cyclic" ELSE "acyclic") \o (IF col THEN "-collide" ELSE ""),
+                     !.imp = E \cup S, !.subs = {<<"s1", "m1">>}, !.inc = {<<"m1", "s1">>},
+                     !.alias = IF col THEN {<<"s1", "m2", "pm3">>, <<"s1", "m3", "pm2">>} ELSE {},
+                     !.defs = IF aug THEN {[k |-> "grouping", n |-> "a", home |-> "m2", refs |-> {}, nest |-> FALSE]} ELSE {},
+                     !.roots = IF aug THEN {[home |-> "m2", k |-> "grouping", m |-> "m2", n |-> "a"]} ELSE {},
+                     !.augs = IF aug THEN {[m |-> "s1", t |-> "m2", n |-> "a"]} ELSE {}]
+  IN {One(E, S, col, FALSE) : E \in SUBSET ME, S \in (SUBSET SE) \ {{}}, col \in BOOLEAN}
+     \cup {One(E, S, FALSE, TRUE) : E \in SUBSET ME, S \in {X \in SUBSET SE : <<"s1", "m2">> \in X}}
 
 \* ---- include graphs
 IncludeFamily(present, Cand) ==
@@ -108,21 +127,22 @@ SchemaJudged(I) == \A sb \in I.subs : sb[2] \in I.mods => <<sb[2], sb[1]>> \in I
 
 \* ---- augments and deviations between modules: m1 { grouping a; uses a }, m2 and m3 act on it
 Acts == {"none", "aug", "augz", "ns", "rep", "devz", "nsx"}
-AugDevInst(a2, a3, used) ==
+AugDevInst(a2, a3, used, self, sp) ==
   LET other(m) == IF m = "m2" THEN "m3" ELSE "m2"
       act(m) == IF m = "m2" THEN a2 ELSE a3
       augs == UNION {IF act(m) = "aug" THEN {[m |-> m, t |-> "m1", n |-> "a"]}
                      ELSE IF act(m) = "augz" THEN {[m |-> m, t |-> "m1", n |-> "z"]} ELSE {} : m \in {"m2", "m3"}}
+              \cup (IF self THEN {[m |-> "m1", t |-> "m1", n |-> "a"]} ELSE {})      \* m1 augments its own container
       devs == UNION {CASE act(m) = "ns" -> {[m |-> m, t |-> "m1", n |-> "a", how |-> "ns", by |-> ""]}
                        [] act(m) = "rep" -> {[m |-> m, t |-> "m1", n |-> "a", how |-> "rep", by |-> ""]}
                        [] act(m) = "devz" -> {[m |-> m, t |-> "m1", n |-> "z", how |-> "ns", by |-> ""]}
                        [] act(m) = "nsx" -> {[m |-> m, t |-> "m1", n |-> "a", how |-> "nsx", by |-> other(m)]}
                        [] OTHER -> {} : m \in {"m2", "m3"}}
       imp == {<<"m2", "m1">>, <<"m3", "m1">>} \cup {<<m, other(m)>> : m \in {x \in {"m2", "m3"} : act(x) = "nsx"}}
-  IN [Base EXCEPT !.fam = "augdev", !.shape = a2 \o "+" \o a3, !.imp = imp, !.augs = augs, !.devs = devs,
+  IN [Base EXCEPT !.fam = "augdev", !.shape = a2 \o "+" \o a3 \o (IF self THEN "+self" ELSE ""), !.spell = sp, !.imp = imp, !.augs = augs, !.devs = devs,
                   !.defs = {[k |-> "grouping", n |-> "a", home |-> "m1", refs |-> {}, nest |-> FALSE]},
                   !.roots = IF used THEN {[home |-> "m1", k |-> "grouping", m |-> "m1", n |-> "a"]} ELSE {}]
-AugDevFamily == UNION {Variants(AugDevInst(a2, a3, used)) : a2 \in Acts, a3 \in Acts, used \in BOOLEAN}
+AugDevFamily == UNION {Variants(AugDevInst(a2, a3, used, self, sp)) : a2 \in Acts, a3 \in Acts, used \in BOOLEAN, self \in BOOLEAN, sp \in {"u", "o"}}
 
 \* ---- seeded combinations (code -> model): one instance of each of four families merged into one
 \* set of modules (grouping graph or augment/deviation case, typedef graph, identity graph, feature graph)
@@ -145,9 +165,10 @@ AllPlaces(sz) == IF sz = "s" THEN {"m1", "m2"} ELSE Mods
 Chunk(c) ==
   CASE c[1] \in Kinds /\ c[2] = "twin" -> TwinFamily(c[1])
     [] c[1] \in Kinds -> DefFamily(c[1], c[2], AllPlaces(c[3]))
+    [] c[1] = "subimport" -> SubImportFamily
     [] c[1] = "import" -> ImportFamily(IF c[3] = "s" THEN {"m1", "m2"} ELSE Mods)
     [] c[1] = "include" -> IncludeFamily(IF c[3] = "s" THEN {"m1"} ELSE {"m1", "m2"}, IF c[3] = "s" THEN IncCandSmall ELSE IncCandFull)
     [] c[1] = "augdev" -> AugDevFamily
 Chunks(sz) == {<<k, sh, sz>> : k \in Kinds, sh \in SingleRef} \cup {<<k, "twin", sz>> : k \in Kinds} \cup {<<k, sh, sz>> : k \in {"grouping", "feature"}, sh \in {"fan", "dag"}}
-              \cup {<<"import", "-", sz>>, <<"include", "-", sz>>, <<"augdev", "-", sz>>}
+              \cup {<<"subimport", "-", sz>>, <<"import", "-", sz>>, <<"include", "-", sz>>, <<"augdev", "-", sz>>}
 =============================================================================
